@@ -1004,9 +1004,16 @@ INV_TOL = 1e-11
 K1_CLAUSE = "disjoint-empty-result"
 
 
+ANG_DOT_ERR = 4e-15  # rounding of |q1.q2| (unit quaternions to ~2 ulp each, 4-term dot product): 18 ulp of 1, observed <= 6 ulp
+
+
 def _ang_tol(theta_deg):
-    s = max(abs(math.sin(math.radians(theta_deg) / 2.0)), 3e-8)
-    return 1e-9 + math.degrees(2e-15 / s)
+    """error of 2*arccos(c) when c carries an absolute error d = ANG_DOT_ERR: 2*d/sin(theta/2) away from 0, and never more than
+    2*arccos(1-d) ~ 2*sqrt(2d) (arccos is only 1/2-Hoelder at 1: a rotation compared with a bit-identical copy of itself gives
+    q.q = 1 - 6e-16 and hence 4e-6 degrees, not 0 — second audit round, false alarm on seeds 14/66/1234)"""
+    s = abs(math.sin(math.radians(theta_deg) / 2.0))
+    lin = 2.0 * ANG_DOT_ERR / s if s > 0 else float("inf")
+    return 1e-9 + math.degrees(min(lin, 2.0 * math.sqrt(2.0 * ANG_DOT_ERR)))
 
 
 def _euler_tol(rel):
